@@ -21,7 +21,7 @@ def nondetAllow : List (NondetSite × String) := [
   (⟨"x/storage/keeper/msg_server_attest.go", "Keeper.RequestAttestation", "rand", "github.com/tendermint/tendermint/libs/rand.Seed"⟩, "seeds the global generator with the block height; the form members come from GetActiveProviders' own generator"),
   (⟨"x/storage/keeper/providers.go", "Keeper.GetActiveProviders", "rand", "github.com/tendermint/tendermint/libs/rand.NewRand"⟩, "fresh generator re-seeded with the block height before use: same draws on every node"),
   (⟨"x/storage/keeper/providers.go", "Keeper.GetRandomizedProviders", "rand", "github.com/tendermint/tendermint/libs/rand.NewRand"⟩, "fresh generator re-seeded with the block height before use (query path)"),
-  (⟨"x/storage/keeper/rewards.go", "providerList", "range-map", "*sizeTracker"⟩, "keys are collected and sorted before any payment (C06_payout_order_independent)"),
+  (⟨"x/storage/keeper/rewards.go", "providerList", "range-map", "*sizeTracker ; ordered by slices.Sort"⟩, "keys are collected and sorted by their natural (total, antisymmetric) order before any payment (C06_payout_order_independent); any other ordering call, e.g. a SortFunc on a key that can tie, changes this fact"),
   (⟨"x/storage/types/file_deal.go", "*UnifiedFile.ResetChunkWithProof", "rand", "github.com/tendermint/tendermint/libs/rand.NewRand"⟩, "fresh generator re-seeded with block gas + height before the draw"),
   (⟨"x/storage/types/file_deal.go", "*UnifiedFile.ResetChunk", "rand", "github.com/tendermint/tendermint/libs/rand.NewRand"⟩, "fresh generator re-seeded with block gas + height before the draw")]
 
